@@ -115,6 +115,50 @@ pub fn sigma_hist_flows(prog: &Prog) -> impl Fn(&Value, &[Op]) -> Vec<Op> + '_ {
 pub fn sigma_by_name<'a>(name: &str, prog: &'a Prog) -> Box<dyn Fn(&Value, &[Op]) -> Vec<Op> + 'a> {
     match name {
         "flows" => Box::new(sigma_hist_flows(prog)),
+        // flows + one host assignment + one load-into-self + one path jump with call-stack reset
+        // + one abandoned time-limited slice
+        "rich" | "rich-noslice" => {
+            let base = sigma_hist_flows(prog);
+            let slices = name == "rich";
+            Box::new(move |o: &Value, h: &[Op]| {
+                let mut v = base(o, h);
+                if o.get("dead").is_some() {
+                    return v;
+                }
+                if !h.iter().any(|x| matches!(x, Op::SetVar(..)))
+                    && let Some(g) = prog.globals.first()
+                {
+                    v.push(Op::SetVar(g.clone(), crate::inst::Val::Int(7)));
+                }
+                if !h.iter().any(|x| matches!(x, Op::LoadInto)) && !h.is_empty() {
+                    v.push(Op::LoadInto);
+                }
+                if !h.iter().any(|x| matches!(x, Op::ChoosePath(_, true)))
+                    && let Some(k) = prog.plain_knots.last()
+                {
+                    v.push(Op::ChoosePath(k.clone(), true));
+                }
+                if slices
+                    && o["can_continue"].as_bool() == Some(true)
+                    && !h.iter().any(|x| matches!(x, Op::ContAsync(_)))
+                {
+                    v.push(Op::ContAsync(2));
+                }
+                v
+            })
+        }
+        // play + flow switch + (as first continuation) a path jump that keeps the call stack
+        "play+switch+jump" => Box::new(move |o: &Value, s: &[Op]| {
+            let mut v = sigma_play(o);
+            if s.is_empty() {
+                v.push(Op::SwitchFlow("fx".into()));
+                v.push(Op::SwitchDefault);
+                for k in prog.plain_knots.iter().take(3) {
+                    v.push(Op::ChoosePath(k.clone(), false));
+                }
+            }
+            v
+        }),
         "play+switch" => Box::new(|o: &Value, s: &[Op]| {
             let mut v = sigma_play(o);
             if s.is_empty() {
@@ -129,25 +173,27 @@ pub fn sigma_by_name<'a>(name: &str, prog: &'a Prog) -> Box<dyn Fn(&Value, &[Op]
 
 pub fn norm_by_name(name: &str) -> Box<dyn Fn(&mut Value)> {
     match name {
-        n if n.starts_with("drop-count:") => {
-            let path = n["drop-count:".len()..].to_string();
+        n if n.starts_with("drop-counts:") => {
+            let names: Vec<String> =
+                n["drop-counts:".len()..].split(',').map(|s| s.to_string()).collect();
             Box::new(move |v: &mut Value| {
-                drop_count(v, &path);
+                drop_counts(v, &names);
             })
         }
         _ => Box::new(|_v: &mut Value| {}),
     }
 }
 
-/// remove the visit count (and turn index) of one container from an observation (C16)
-pub fn drop_count(v: &mut Value, path: &str) {
+/// remove the visit counts / turn indices of the named containers and everything inside them
+pub fn drop_counts(v: &mut Value, names: &[String]) {
+    let hit = |p: &str| names.iter().any(|n| p == n || p.starts_with(&format!("{n}.")));
     if let Some(c) = v.get_mut("counts").and_then(|c| c.as_object_mut()) {
-        c.remove(path);
+        c.retain(|k, _| !hit(k));
     }
     if let Some(s) = v.get_mut("save").and_then(|s| s.as_object_mut()) {
         for k in ["visitCounts", "turnIndices"] {
             if let Some(m) = s.get_mut(k).and_then(|m| m.as_object_mut()) {
-                m.remove(path);
+                m.retain(|k, _| !hit(k));
             }
         }
     }
@@ -354,7 +400,14 @@ pub fn run_pairs(prog: &Rc<Prog>, setup: &Setup, spec: &PairSpec, stats: &mut St
                     continue;
                 }
                 let tail = &rs[rs.len() - pair.injected..];
-                if let Some((cls, what)) = (spec.judge)(&pair, tail) {
+                let verdict = (spec.judge)(&pair, tail);
+                if let Some((cls, _)) = &verdict
+                    && cls == "SKIP"
+                {
+                    stats.inc("pairs_skipped_by_judge");
+                    continue;
+                }
+                if let Some((cls, what)) = verdict {
                     stats.violation(Violation {
                         property: spec.id.into(),
                         class: format!("{}/{}", spec.id, cls),
